@@ -12,7 +12,7 @@ import (
 func init() {
 	register(&PropRule{
 		ID:    "C36",
-		Roots: []string{"./private/trust"},
+		Roots: []string{"./private/trust", "./control/trust"},
 		Explain: "Decides the structural clauses of signer generation. (X1) The Expiration stored in the generated " +
 			"signer is a minimum (nested minTime, minTime(a,b) = a if a.Before(b) else b) over exactly " +
 			"{chain[0].NotAfter, trcs[0].Validity.NotAfter} outside the grace period and over those plus " +
@@ -145,6 +145,7 @@ func setString(m map[string]bool) string {
 }
 
 func runC36(c *Ctx) {
+	lastExpiringCovers(c, "L1-last-expiring-covers")
 	gT := "(*private/trust.SignerGen)"
 	if v := c.View(gT + ".bestForKey"); v != nil {
 		fn := v.Fn
